@@ -201,7 +201,7 @@ def entry_of(name):
     reprs = {"L": "AdjacencyList", "M": "AdjacencyMap", "X": "AdjacencyMatrix", "E": "EdgeList",
              "WI": "AdjacencyListWeighted<isize>", "WU": "AdjacencyListWeighted<usize>"}
     entry, rep, shape, x, y, cb, t = parts
-    shape_c = shape if shape in ("mapgap", "maphigh") else "contiguous"
+    shape_c = shape if shape.startswith("map") else "contiguous"
     inr = ("in0", "inlast")
     arg = "in_range" if (x in inr and y in inr) else "x=%s,y=%s" % (x, y)
     if cb != "cb0":
@@ -212,9 +212,9 @@ def entry_of(name):
 # ----------------------------------------------------------------------------- the C13 check
 
 def select_programs(names, tier, seed):
-    """quick: a seed-rotated ~15 % slice that always contains one program per (entry point,
-    representation) and every program with a bad vertex id or injected callback panic at the first
-    shape; thorough: the whole catalogue."""
+    """quick: every in-range program plus a seed-rotated 1/7 slice of the programs with bad arguments or
+    panicking callbacks (always one program per (entry point, representation)); thorough: the whole
+    catalogue."""
     if tier == "thorough":
         return list(range(len(names)))
     chosen = set()
@@ -224,6 +224,13 @@ def select_programs(names, tier, seed):
         key = (parts[0], parts[1])
         if key not in seen:
             seen.add(key)
+            chosen.add(i)
+    # every program whose arguments are all in range and whose callbacks do not panic (that is where an
+    # unchecked fast path hides: nothing is there to be rejected), at 0 / 2 simulated CPUs; every conversion
+    for i, n in enumerate(names):
+        parts = n.split("/")
+        if parts[0].startswith("from_") or (parts[3] in ("in0", "inlast") and parts[4] in ("in0", "inlast")
+                                            and parts[5] == "cb0" and parts[6] in ("t0", "t2")):
             chosen.add(i)
     stride = 7
     off = seed % stride
@@ -272,6 +279,29 @@ def replay_mem(path, rf):
     return 2
 
 
+def run_pool(ws, names, jobs, njobs, mode="run"):
+    """Run many (indices, seed, flags, workdir) jobs with at most njobs Miri processes at a time.
+    Returns a list of (job, done, failures, mismatches)."""
+    shards = []
+    for k, j in enumerate(jobs):
+        os.makedirs(j["workdir"], exist_ok=True)
+        shards.append((j, Shard(k, ws, names, j["indices"], j["seed"], j["flags"], j["workdir"], mode)))
+    pending = list(shards)
+    running = []
+    while pending or running:
+        while pending and len(running) < njobs:
+            j, s = pending.pop(0)
+            if s.start():
+                running.append((j, s))
+        time.sleep(0.1)
+        for j, s in list(running):
+            if s.proc.poll() is not None:
+                running.remove((j, s))
+                if s.finish(names) and s.start():
+                    running.append((j, s))
+    return [(j, s.done, s.failures, s.mismatches) for j, s in shards]
+
+
 # ----------------------------------------------------------------------------- judged cases (C15 / C17)
 
 JUDGE_KINDS = ["list_complement", "list_complete", "list_degree_sequence", "list_is_semicomplete", "list_union",
@@ -299,11 +329,16 @@ def judge_lane(pid, tier, seed, workdir, njobs):
     rates = ["0.1", "0.3", "0.05", "0.5"]
     t0 = time.time()
     ran, violations = 0, []
+    jobs = []
+    per_seed = max(1, njobs // nseeds) if nseeds < njobs else 1
     for k in range(nseeds):
         ms = (seed + 101 * k) % (1 << 31)
         flags = "-Zmiri-preemption-rate=%s" % rates[k % len(rates)]
-        mism = []
-        done, fails = run_catalogue(ws, names, cases, ms, flags, os.path.join(workdir, "judge%02d" % k), njobs, "judge", mism)
+        for part in range(per_seed):
+            jobs.append({"indices": cases[part::per_seed], "seed": ms, "flags": flags,
+                         "workdir": os.path.join(workdir, "judge%02d_%02d" % (k, part))})
+    for j, done, fails, mism in run_pool(ws, names, jobs, njobs, "judge"):
+        ms, flags = j["seed"], j["flags"]
         ran += len(done)
         for i, text in mism:
             kind = JUDGE_KINDS[i % 8]
